@@ -109,6 +109,12 @@ def run_shard(shard, tier, seed):
         sig = {'kind': kind, 'stype': stype, 'via': via, 'vclass': value_class(value)}
         if extra:
             sig.update(extra)
+        full = (detail or {}).get('via', '')
+        if ':' in full:
+            # the carrying element's complex type (a defect of the carrier, e.g. the xlink attribute table, is not the simple type's)
+            carrier = full.split(':', 1)[1].split('/@')[0]
+            if carrier in ref.ELS and ref.eltype(carrier) in ('link', 'opus', 'part-link'):
+                sig['carrier_type'] = ref.eltype(carrier)
         viol.append({'sig': sig, 'case': {'stype': stype, 'via': via, 'value': repr(value)}, 'detail': detail or {}})
 
     if shard['slice'] == 'no-text':
@@ -178,6 +184,32 @@ def run_shard(shard, tier, seed):
                 return _c(_dv, xsd_check=False, **kw) if _dv is not None else _c(xsd_check=False, **kw)
             routes.append(('attribute:%s/@%s' % (n, an), mk, ('@', an)))
         c['routes'] += len(routes)
+        # re-assignment on an existing element: a refused value must not end up in the emitted text
+        reassign = []
+        for n in ecarriers:
+            ecls = lib.cls_of_element(n)
+            dv0 = lib.default_value(ecls) if ecls is not None else None
+            if ecls is not None and dv0 is not None:
+                reassign.append((n, ecls, dv0))
+        for n, ecls, dv0 in reassign:
+            for lex in forms[::3] + ['@@bad@@']:
+                for pv in lib.py_candidates(lex) + ([-987654321.5] if lex == '@@bad@@' else []):
+                    r0 = lib.call(ecls, dv0, xsd_check=False)
+                    if r0[0] == 'exc':
+                        continue
+                    e = r0[1]
+                    rr = lib.call(setattr, e, 'value_', pv)
+                    evals += 1
+                    s_ = lib.call(e.to_string)
+                    if s_[0] != 'ok':
+                        continue
+                    emitted = ET.fromstring(s_[1]).text or ''
+                    if not ref.valid(t, emitted):
+                        nontriv += 1
+                        if rr[0] == 'exc':
+                            v('refused-value-emitted', t, 'element-reassign', pv, {'emitted': emitted, 'via': 'element-reassign:' + n})
+                        else:
+                            v('accepted-emits-invalid', t, 'element', pv, {'emitted': emitted, 'via': 'element-reassign:' + n})
         for lex in forms:
             rv = ref.valid(t, lex)
             cands = lib.py_candidates(lex)
